@@ -1,7 +1,7 @@
 #!/bin/sh
 # usage: patchcheck.sh <patch.diff> <check ids...>
 # applies a patch to a scratch copy of /repo (outside /repo and /verif), runs the checks on it, removes the copy.
-PATCH="$1"; shift
+PATCH=$(readlink -f "$1"); shift
 D=$(mktemp -d /tmp/pc-XXXXXX)
 rsync -a --exclude target --exclude .git /repo/ $D/
 (cd $D && patch -p1 -s < "$PATCH") || echo "PATCH DOES NOT APPLY"
